@@ -576,12 +576,23 @@ def run(report, p):
     rd = p.funcs.get("ascmhl.hashlist_xml_parser.parse")
     if rd is None:
         raise AnalysisError("manifest reader not found")
-    apps = [n for n in walk_no_nested(rd.node) if isinstance(n, ast.Call) and isinstance(n.func, ast.Attribute) and n.func.attr == "append" and norm(n.args[0]) == "element.text" and "pattern" in norm(_enclosing_if(n))]
+    apps = [n for n in walk_no_nested(rd.node) if isinstance(n, ast.Call) and isinstance(n.func, ast.Attribute) and n.func.attr == "append" and n.args and "element.text" in norm(n.args[0]) and "pattern" in norm(_enclosing_if(n))]
     if not apps:
-        elsewhere = [f_ for f_ in p.funcs.values() if f_.module is rd.module and f_ is not rd and any(isinstance(n, ast.Call) and isinstance(n.func, ast.Attribute) and n.func.attr == "append" and n.args and norm(n.args[0]) == "element.text" for n in walk_no_nested(f_.node))]
+        elsewhere = [f_ for f_ in p.funcs.values() if f_.module is rd.module and f_ is not rd and any(isinstance(n, ast.Call) and isinstance(n.func, ast.Attribute) and n.func.attr == "append" and n.args and "element.text" in norm(n.args[0]) for n in walk_no_nested(f_.node))]
         if elsewhere:
             raise AnalysisError(f"manifest reader: <pattern> texts are collected in {elsewhere[0].qual}, not in the reader's event loop; reader structure not modelled")
     r6.instance(rd, apps[0] if apps else rd.node, "reader pattern append")
+    if apps:
+        # the text of an EMPTY element is None for lxml: a pattern list must never receive None (the writer hands every pattern to E.pattern(), which
+        # accepts strings only - the next create would abort while writing its manifest, for ever)
+        a0_ = apps[0].args[0]
+        none_safe = (isinstance(a0_, ast.BoolOp) and isinstance(a0_.op, ast.Or) and isinstance(a0_.values[-1], ast.Constant) and isinstance(a0_.values[-1].value, str)) or (isinstance(a0_, ast.IfExp) and "element.text" in norm(a0_.test))
+        if not none_safe:
+            from .common import atomic_deps as _ad12
+
+            g12 = cfg_of(rd)
+            none_safe = any((a_ == "element.text" and l_ == "T") or (a_ == "element.text is None" and l_ == "F") for t_, lb_ in g12.necessary_branches(g12.node_for(apps[0])) for a_, l_ in _ad12(t_.ast, lb_))
+        r6.check(none_safe, rd, apps[0], "the reader appends `element.text` of a <pattern> element as it is: for an empty element (`create -i \"\"`, or a manifest of another tool with <pattern/>) that is None, the list of patterns of the latest generation then contains None and EVERY later create aborts with TypeError while writing its manifest (a .mhl.tmp is left behind each time)", construct="reader puts None into the pattern list for an empty <pattern>")
     ok = len(apps) == 1
     if ok:
         lst = norm(apps[0].func.value)
